@@ -200,3 +200,32 @@ Definition check_scase (c : scase) : list (N * N * N) :=
   let '(id, h) := c in
   (if model_eqb_set h then [] else [(id, 1, 0)]) ++ map (fun ct => (id, fst ct, snd ct)) (spec_codes_set h).
 Definition failing_set (cs : list scase) : list (N * N * N) := flat_map check_scase cs.
+
+(* ------------------------------------------------------------------ H3: real Consensus peers over libp2p *)
+(* the deltas of the common Merkle-DAG, the pinset of every trusted peer once all of them hold the same heads, and the
+   CIDs on which an update of the peer nobody trusts showed through *)
+Record h3 := mk_h3 { h3_deltas : list delta; h3_finals : list (list (key * val)); h3_leak : list key }.
+
+Definition diverging_finals (keys : list key) (fs : list (list (key * val))) (membership_only : bool) : list key :=
+  match fs with
+  | [] => []
+  | f0 :: rest =>
+      filter (fun k => existsb (fun f =>
+                 if membership_only then negb (Bool.eqb (match aget k f0 with Some _ => true | None => false end)
+                                                        (match aget k f with Some _ => true | None => false end))
+                 else negb (optN_eqb (aget k f0) (aget k f))) rest) keys
+  end.
+
+Definition spec_codes_net (h : h3) : list (N * N) :=
+  let keys := nodup N.eq_dec (flat_map (fun d => map fst (d_adds d)) (h3_deltas h)) in
+  let hh := mk_h2 (h3_deltas h) [] in
+  let bad20 := diverging_finals keys (h3_finals h) true in
+  let bad21 := diverging_finals keys (h3_finals h) false in
+  (match bad20 with [] => [] | _ => [(20, 0)] end) ++
+  (match bad21 with [] => [] | _ => [(21, tag_of hh bad21)] end) ++
+  (match h3_leak h with [] => [] | _ => [(24, 0)] end).
+
+Definition ncase := (N * h3)%type.
+Definition check_ncase (c : ncase) : list (N * N * N) :=
+  let '(id, h) := c in map (fun ct => (id, fst ct, snd ct)) (spec_codes_net h).
+Definition failing_net (cs : list ncase) : list (N * N * N) := flat_map check_ncase cs.
